@@ -14,11 +14,12 @@ pub struct C20;
 /// What one write produced: Ok(returned count, writer contents) or Err(kind, writer contents).
 type W = Result<(usize, Vec<u8>), (String, Vec<u8>)>;
 
-fn write_with<T: WriteToHeader + ?Sized>(x: &T, prefill: &[u8]) -> (W, W, W, Result<Vec<u8>, String>) {
+fn write_with<T: WriteToHeader + ?Sized>(x: &T, prefill: &[u8], follow: bool) -> (W, W, W, Result<Vec<u8>, String>) {
     let one = |f: &dyn Fn(&mut Writer) -> std::io::Result<usize>| -> W {
         let mut w = Writer::from(prefill.to_vec());
         match f(&mut w) {
             Ok(n) => Ok((n, w.finish())),
+            Err(e) if !follow => Err((format!("{:?}", e.kind()), w.finish())),
             Err(e) => {
                 // a refusal writes nothing and leaves the writer usable: one more byte goes in
                 // (the marker 0x5A is expected after the prefill by the judge)
@@ -38,32 +39,32 @@ fn write_with<T: WriteToHeader + ?Sized>(x: &T, prefill: &[u8]) -> (W, W, W, Res
     (a, b, c, d)
 }
 
-fn run_val(v: &Val, prefill: &[u8]) -> (W, W, W, Result<Vec<u8>, String>) {
+fn run_val(v: &Val, prefill: &[u8], follow: bool) -> (W, W, W, Result<Vec<u8>, String>) {
     let bytes = blob_bytes(v);
     match v {
-        Val::U8(x) => write_with(x, prefill),
-        Val::U16(x) => write_with(x, prefill),
-        Val::U32(x) => write_with(x, prefill),
-        Val::U64(x) => write_with(x, prefill),
-        Val::U128(x) => write_with(x, prefill),
-        Val::Usize(x) => write_with(x, prefill),
-        Val::I8(x) => write_with(x, prefill),
-        Val::I16(x) => write_with(x, prefill),
-        Val::I32(x) => write_with(x, prefill),
-        Val::I64(x) => write_with(x, prefill),
-        Val::I128(x) => write_with(x, prefill),
-        Val::Isize(x) => write_with(x, prefill),
-        Val::Bytes(_) => write_with(bytes.as_slice(), prefill),
-        Val::Addr(a) => write_with(&to_addresses(a), prefill),
-        Val::TlvStruct(k, _) => write_with(&v2::TypeLengthValue::new(*k, bytes.as_slice()), prefill),
-        Val::TlvOwned(k, _) => write_with(&v2::TypeLengthValue::new(*k, bytes.as_slice()).to_owned(), prefill),
-        Val::TlvTuple(k, _) => write_with(&(*k, bytes.as_slice()), prefill),
-        Val::TlvTupleType(t, _) => write_with(&(TYPES[*t], bytes.as_slice()), prefill),
-        Val::Section(_) => write_with(&v2::TypeLengthValues::from(bytes.as_slice()), prefill),
-        Val::SectionAdv(_, k) => write_with(&crate::hist::advanced(bytes.as_slice(), *k), prefill),
-        Val::Type(t) => write_with(&TYPES[*t], prefill),
+        Val::U8(x) => write_with(x, prefill, follow),
+        Val::U16(x) => write_with(x, prefill, follow),
+        Val::U32(x) => write_with(x, prefill, follow),
+        Val::U64(x) => write_with(x, prefill, follow),
+        Val::U128(x) => write_with(x, prefill, follow),
+        Val::Usize(x) => write_with(x, prefill, follow),
+        Val::I8(x) => write_with(x, prefill, follow),
+        Val::I16(x) => write_with(x, prefill, follow),
+        Val::I32(x) => write_with(x, prefill, follow),
+        Val::I64(x) => write_with(x, prefill, follow),
+        Val::I128(x) => write_with(x, prefill, follow),
+        Val::Isize(x) => write_with(x, prefill, follow),
+        Val::Bytes(_) => write_with(bytes.as_slice(), prefill, follow),
+        Val::Addr(a) => write_with(&to_addresses(a), prefill, follow),
+        Val::TlvStruct(k, _) => write_with(&v2::TypeLengthValue::new(*k, bytes.as_slice()), prefill, follow),
+        Val::TlvOwned(k, _) => write_with(&v2::TypeLengthValue::new(*k, bytes.as_slice()).to_owned(), prefill, follow),
+        Val::TlvTuple(k, _) => write_with(&(*k, bytes.as_slice()), prefill, follow),
+        Val::TlvTupleType(t, _) => write_with(&(TYPES[*t], bytes.as_slice()), prefill, follow),
+        Val::Section(_) => write_with(&v2::TypeLengthValues::from(bytes.as_slice()), prefill, follow),
+        Val::SectionAdv(_, k) => write_with(&crate::hist::advanced(bytes.as_slice(), *k), prefill, follow),
+        Val::Type(t) => write_with(&TYPES[*t], prefill, follow),
         // caller-defined impls are not C20's subject (the generator below never produces them)
-        Val::Custom(..) => write_with(bytes.as_slice(), prefill),
+        Val::Custom(..) => write_with(bytes.as_slice(), prefill, follow),
     }
 }
 
@@ -126,6 +127,91 @@ fn array_receivers<const N: usize>(fill: u8, prefill: &[u8], rec: &mut Recorder)
     }
 }
 
+/// The last bytes before the writer's limit. A `Writer` refuses once it holds more than 16 + 65535
+/// bytes; one that holds at most that many is below its limit, but a value written into it may
+/// carry it across. Only what the statement fixes in every reading is demanded there: a call that
+/// reports success must have appended exactly the encoding and returned its size; a call that
+/// reports failure must not have appended the complete encoding (it would have "appended exactly
+/// that value's wire encoding" and denied it), and whatever it did append must be a prefix of it.
+fn judge_edge(v: &Val, pre_len: usize, rec: &mut Recorder) {
+    let pre = Blob::new(pre_len as u64 * 31 + 7, pre_len);
+    let case = format!("edge:{}|{}", v.text(), pre.text());
+    rec.case(hash_bytes(case.as_bytes()), true);
+    let prefill = pre.bytes();
+    let enc = match v.encode() {
+        Ok(e) => e,
+        Err(()) => return,
+    };
+    rec.class(&format!("oracle:edge|{}|{}", v.kind(), if pre_len + enc.len() > WRITER_LIMIT { "crosses-the-limit" } else if pre_len + enc.len() > MAX_PAYLOAD { "ends-in-the-last-16-bytes" } else { "stays-below" }), || case.clone());
+    let r = guard(|| run_val(v, &prefill, false));
+    rec.events(3);
+    let viol = |rec: &mut Recorder, rule: &str, d: String| {
+        rec.violation(&format!("{}:{}", rule, v.kind()), case.clone(), format!("edge|{}", v.kind()), format!("{} for {} ({} encoded bytes) into a writer holding {} bytes (it refuses once it holds more than {}): {}", rule, v.text().chars().take(80).collect::<String>(), enc.len(), prefill.len(), WRITER_LIMIT, d));
+    };
+    let (a, b, c, _) = match r {
+        Ok(x) => x,
+        Err(m) => {
+            viol(rec, "panic", m);
+            return;
+        }
+    };
+    for (how, w) in [("x", &a), ("&x", &b), ("&&x", &c)] {
+        match w {
+            Ok((n, out)) => {
+                if *n != enc.len() {
+                    viol(rec, "edge-returned-count", format!("write_to on {} returned Ok({}), the encoding has {} bytes", how, n, enc.len()));
+                }
+                if out.len() != prefill.len() + enc.len() || out[..prefill.len()] != prefill[..] || out[prefill.len()..] != enc[..] {
+                    viol(rec, "edge-appended-bytes", format!("write_to on {} returned Ok({}) but the writer holds {} bytes, not its {} earlier bytes followed by the {} encoded ones", how, n, out.len(), prefill.len(), enc.len()));
+                }
+            }
+            Err((k, out)) => {
+                if out.len() < prefill.len() || out[..prefill.len()] != prefill[..] {
+                    viol(rec, "edge-failure-damaged-contents", format!("write_to on {} failed with {} and the writer's {} earlier bytes are no longer what they were ({} bytes now)", how, k, prefill.len(), out.len()));
+                } else if !enc.starts_with(&out[prefill.len()..]) {
+                    viol(rec, "edge-failure-appended-other-bytes", format!("write_to on {} failed with {} after appending {} bytes that are not a prefix of the encoding", how, k, out.len() - prefill.len()));
+                } else if !enc.is_empty() && out.len() == prefill.len() + enc.len() {
+                    viol(rec, "edge-failure-after-complete-append", format!("write_to on {} appended the complete encoding ({} bytes, the writer went from {} to {}) and returned Err({}) instead of Ok({})", how, enc.len(), prefill.len(), out.len(), k, enc.len()));
+                }
+            }
+        }
+    }
+}
+
+const EDGE_VALUES: u64 = 44;
+const EDGE_FILLS: u64 = 56;
+
+fn edge_val(i: u64, rng: &mut Rng) -> Val {
+    let p: u128 = 0x0102_0304_0506_0708_090A_0B0C_0D0E_0F10;
+    let lens = [0usize, 1, 2, 13];
+    match i {
+        0 => Val::U8(p as u8),
+        1 => Val::U16(p as u16),
+        2 => Val::U32(p as u32),
+        3 => Val::U64(p as u64),
+        4 => Val::U128(p),
+        5 => Val::Usize(p as usize),
+        6 => Val::I8(-2),
+        7 => Val::I16(-3),
+        8 => Val::I32(-4),
+        9 => Val::I64(-5),
+        10 => Val::I128(-6),
+        11 => Val::Isize(-7),
+        12..=15 => Val::Addr(Addr::random(rng, (i - 12) as u8)),
+        16..=19 => Val::TlvStruct(0x20 + i as u8, Blob::new(i, lens[(i - 16) as usize])),
+        20..=23 => Val::TlvTuple(0xE0 + i as u8, Blob::new(i, lens[(i - 20) as usize])),
+        24..=27 => Val::TlvOwned(i as u8, Blob::new(i, lens[(i - 24) as usize])),
+        28..=31 => Val::TlvTupleType((i % 12) as usize, Blob::new(i, lens[(i - 28) as usize])),
+        32..=35 => Val::Bytes(Blob::new(i, [0usize, 1, 2, 17][(i - 32) as usize])),
+        36..=38 => Val::Section(Blob::new(i, [0usize, 3, 7][(i - 36) as usize])),
+        39 => Val::SectionAdv(Blob::new(i, 9), 1),
+        40 => Val::Type(3),
+        41 => Val::TlvStruct(0x04, Blob::new(i, 40)),
+        42 => Val::Bytes(Blob::new(i, 300)),
+        _ => Val::TlvTuple(0x05, Blob::new(i, 300)),
+    }
+}
+
 fn judge(v: &Val, pre: &Blob, rec: &mut Recorder) {
     let case = format!("val:{}|{}", v.text(), pre.text());
     rec.case(hash_bytes(case.as_bytes()), true);
@@ -148,7 +234,7 @@ fn judge(v: &Val, pre: &Blob, rec: &mut Recorder) {
         ),
         || case.clone(),
     );
-    let r = guard(|| run_val(v, &prefill));
+    let r = guard(|| run_val(v, &prefill, true));
     rec.events(4);
     let viol = |rec: &mut Recorder, rule: &str, d: String| {
         rec.violation(&format!("{}:{}", rule, v.kind()), case.clone(), format!("{}|{}", v.kind(), if enc.is_ok() { "encodable" } else { "oversized" }), format!("{} for {} into a writer holding {} bytes: {}", rule, v.text().chars().take(80).collect::<String>(), prefill.len(), d));
@@ -203,7 +289,7 @@ fn judge(v: &Val, pre: &Blob, rec: &mut Recorder) {
     }
     // a TLV and the equivalent (type, bytes) pair encode identically (real vs real)
     if let Val::TlvStruct(k, blob) = v {
-        if let Ok((_, _, _, d2)) = guard(|| run_val(&Val::TlvTuple(*k, blob.clone()), &prefill)) {
+        if let Ok((_, _, _, d2)) = guard(|| run_val(&Val::TlvTuple(*k, blob.clone()), &prefill, true)) {
             rec.event();
             if d != d2 {
                 viol(rec, "tlv-vs-tuple", "TypeLengthValue::to_bytes differs from (type, bytes).to_bytes".into());
@@ -281,6 +367,7 @@ impl Monitor for C20 {
             stream("c20-rand", tier.n(60, 300_000, 30_000_000)),
             exhaustive("calling-context", 2),
             exhaustive("c20-arrays", if tier == Tier::Miri { 2 } else { 14 }),
+            exhaustive("c20-edge", if tier == Tier::Miri { 0 } else { EDGE_VALUES * EDGE_FILLS }),
         ]
     }
     fn run_case(&self, stream: &str, idx: u64, seed: u64, rec: &mut Recorder) {
@@ -304,6 +391,12 @@ impl Monitor for C20 {
             return;
         }
         let mut rng = Rng::for_case(seed, stream_id(stream), idx);
+        if stream == "c20-edge" {
+            // writers holding 65496 ..= 65551 bytes x small values of every kind
+            let v = edge_val(idx % EDGE_VALUES, &mut rng);
+            judge_edge(&v, WRITER_LIMIT - (idx / EDGE_VALUES % EDGE_FILLS) as usize, rec);
+            return;
+        }
         let (v, pre) = gen(stream, idx, &mut rng);
         judge(&v, &pre, rec);
     }
@@ -327,6 +420,13 @@ impl Monitor for C20 {
         ]
     }
     fn replay(&self, case: &str, rec: &mut Recorder) {
+        if let Some(rest) = case.strip_prefix("edge:") {
+            if let Some((v, p)) = rest.rsplit_once('|') {
+                if let (Some(v), Some(p)) = (Val::parse(v), Blob::parse(p)) {
+                    judge_edge(&v, p.len, rec);
+                }
+            }
+        }
         if let Some(rest) = case.strip_prefix("val:") {
             if let Some((v, p)) = rest.rsplit_once('|') {
                 if let (Some(v), Some(p)) = (Val::parse(v), Blob::parse(p)) {
